@@ -422,6 +422,8 @@ _public_ int m_ctx_deregister(void) {
     M_PARAM_ASSERT(c->state == M_CTX_IDLE);
 
     int ret = 0;
+    /* No module can join a context that is being torn down (a stop callback could try to) */
+    c->finalized = true;
     M_MEM_LOCK(c, {
         /*
          * Deregister the modules while the context is still the one of this thread:
